@@ -145,4 +145,5 @@ package envelope
 //@   trusted
 //@   requires privKey != nil && token != nil
 //@   ensures result1 == nil ==> result0 != nil && sealedModel(result0) == token
-//@   assigns nothing
+//@   ensures result1 == nil ==> signings(privKey) == old(signings(privKey)) + 1
+//@   assigns signings(privKey)
